@@ -126,6 +126,26 @@ def spec(tier, seed):
         """ % {"n": n}, unwind=n + 3, tier="quick" if n <= 3 else "thorough", cost=10 + 5 * n,
                   bounds="call stacks of exactly %d call sites, any rows" % n,
                   functions=["rusty_basic::error_envelope::WithStacktrace for Result", "rusty_basic::error_envelope::ErrorEnvelope::new_draining_stacktrace"])
+    pos = b.file("rusty_common/src/position.rs", "rusty_common", "position")
+    b.add(pos, "vk_c11_position_round_trip", """
+        // a position keeps any row and column it is given (files of any length, lines of any length)
+        let row: u32 = kani::any();
+        let col: u32 = kani::any();
+        kani::assume(row >= 1 && col >= 1 && row < u32::MAX && col < u32::MAX);
+        let p = Position::new(row, col);
+        assert!(p.row() == row && p.col() == col);
+        let q = p.inc_col();
+        assert!(q.row() == row && q.col() == col + 1);
+        let r = p.inc_row();
+        assert!(r.row() == row + 1 && r.col() == 1);
+        assert!(Position::start().row() == 1 && Position::start().col() == 1);
+        let (orow, ocol): (u32, u32) = (kani::any(), kani::any());
+        kani::assume(orow >= 1 && ocol >= 1);
+        let other = Position::new(orow, ocol);
+        assert!((p == other) == (other.row() == row && other.col() == col));
+        """, unwind=2, exhaustive=True, cost=5, bounds="every row and column (full u32 width)",
+          functions=["rusty_common::Position::new", "rusty_common::Position::row", "rusty_common::Position::col",
+                     "rusty_common::Position::inc_col", "rusty_common::Position::inc_row"])
     return b.build(
         tier,
         bounds="texts of 1..5 characters over {x, CR, LF} (quick) / ..7 (thorough); reader positions on texts of 0..3 / ..5; call stacks of 0..3 / ..4",
